@@ -691,11 +691,11 @@ def decodeTbs (raw : Bytes) (outerParam : Bool) (signature : Bytes) : Option Dec
                                   tbs := raw, signature }
                               | _, _, _ => none
 
-/-- `Cert::decode` -/
-def decodeCert (b : Bytes) : Option Decoded :=
+/-- `Cert::take_from`: one certificate and what follows it -/
+def takeCert (b : Bytes) : Option (Decoded × Bytes) :=
   match takeCons tagSeq b with
   | none => none
-  | some (c, _) =>
+  | some (c, rest) =>
     if c = [] then none else
     match skipOne c with
     | none => none
@@ -706,7 +706,10 @@ def decodeCert (b : Bytes) : Option Decoded :=
       | some (outerParam, r2) =>
         match takeBitString r2 with
         | none => none
-        | some (_, sig, r3) => if r3 ≠ [] then none else decodeTbs raw outerParam sig
+        | some (_, sig, r3) => if r3 ≠ [] then none else (decodeTbs raw outerParam sig).map (·, rest)
+
+/-- `Cert::decode`: the source is unbounded, what follows the certificate is not looked at -/
+def decodeCert (b : Bytes) : Option Decoded := (takeCert b).map (·.1)
 
 /-! ## from the decoded certificate to the facts validation looks at -/
 
